@@ -779,6 +779,8 @@ Proof. split; reflexivity. Qed.
 (* the scheduled run of a one-call history completes (nothing of the program is left) and logs the reset reply *)
 Example ex_run_subproc_completes :
   run_subproc_scripted [[mk_episode 7 8 [mk_sstep 9 0 true false 1]]] [KaReset] [1; 0; 2] = (0, [(0, ResReset 7%Z (Some 8%Z))]) /\
-  run_subproc_scripted_w [[mk_episode 7 8 [mk_sstep 9 0 true false 1]]] [true] [KaReset; KaIsWrapped [0]] []
-  = (0, [(0, ResReset 7%Z (Some 8%Z)); (0, ResBool true)]).
-Proof. split; vm_compute; reflexivity. Qed.
+  run_subproc_scripted_w [[mk_episode 7 8 [mk_sstep 9 0 true false 1]]] [true] [KaReset; KaIsWrapped [0]; KaGetAttr [0]] []
+  = (0, [(0, ResReset 7%Z (Some 8%Z)); (0, ResBool true); (0, ResAttr 0%Z)]) /\
+  run_subproc_scripted [[mk_episode 7 8 [mk_sstep 9 0 true false 1]]] [KaReset; KaSetAttr 5 [0]; KaGetAttr [0]] [2; 2; 2; 2; 2; 2; 2; 2; 2]
+  = (0, [(0, ResReset 7%Z (Some 8%Z)); (0, ResNone); (0, ResAttr 5%Z)]).
+Proof. repeat split; vm_compute; reflexivity. Qed.
